@@ -152,6 +152,10 @@ func (f *File) isDotImport(path string) bool {
 		// the "C" pseudo-package is always referred to as C
 		return false
 	}
+	if def := f.imports[path]; def.name != "" && def.name != "_" {
+		// once a path has been registered its name is final
+		return def.name == "."
+	}
 	if id, ok := f.hints[path]; ok {
 		return id.name == "." && id.alias
 	}
